@@ -454,6 +454,13 @@ class SymExec:
             b.conds = b.conds + (('F', U.src(s.test)),)
             a.events.append(('cond', 'T', U.src(s.test)))
             b.events.append(('cond', 'F', U.src(s.test)))
+            # (x or y) false => x false and y false ; (x and y) true => both true
+            if isinstance(s.test, ast.BoolOp):
+                for v_ in s.test.values:
+                    if isinstance(s.test.op, ast.Or):
+                        b.events.append(('cond', 'F', U.src(v_)))
+                    else:
+                        a.events.append(('cond', 'T', U.src(v_)))
             return self.block(s.body, [a], depth) + self.block(s.orelse, [b], depth)
         if isinstance(s, (ast.For, ast.While)):
             # havoc everything the loop may write (fields of self and locals)
